@@ -264,6 +264,20 @@ func randJpegOther(r *rng) jpegSeg {
 	case 2:
 		return jpegSeg{0xdd, be16(uint16(r.intn(65536)))} // DRI
 	case 3:
+		if r.intn(2) == 0 {
+			// APP2 that starts like an ICC chunk but is too short to be one (identifier alone, identifier + 1
+			// byte), or carries another identifier of the same length
+			switch r.intn(4) {
+			case 0:
+				return jpegSeg{0xe2, []byte("ICC_PROFILE\x00")}
+			case 1:
+				return jpegSeg{0xe2, append([]byte("ICC_PROFILE\x00"), byte(r.next()))}
+			case 2:
+				return jpegSeg{0xe2, []byte("ICC_PROFILE")}
+			default:
+				return jpegSeg{0xe2, append([]byte("ICC_PROFILF\x00\x01\x01"), r.bytes(r.intn(20))...)}
+			}
+		}
 		return jpegSeg{0xe2, r.bytes(r.intn(30))} // APP2 that is not an ICC profile
 	case 4:
 		return jpegSeg{0xe1, append([]byte("Exif\x00\x00"), r.bytes(r.intn(100))...)}
@@ -376,6 +390,9 @@ func (d *webpDesc) build() (all []byte, needed int) {
 		} else if d.noICCP {
 			payload.Write(riffChunk("EXIF", []byte{1, 2, 3, 4}))
 			needed += 8
+		}
+		if d.between != nil {
+			payload.Write(d.between) // chunks of the extended format between the header part and the image data (ALPH, ANIM, EXIF, ...)
 		}
 		payload.Write(riffChunk("VP8L", append(vp8lHeader(d.w&0x3fff|1, d.h&0x3fff|1, d.alpha), d.body...)))
 	}
